@@ -142,7 +142,7 @@ def spec_strategy(draw, tier):
           "dsb_per_conn": draw(st.sampled_from([False, False, True]))}
     # "cut after any packet" is about the order of the packets in the file; their times need not follow it (captures merged from
     # several interfaces), and relative times start at 0
-    tm = draw(st.sampled_from([None, None, "disorder", "disorder", "zero"]))
+    tm = draw(st.sampled_from([None, None, "disorder", "disorder", "zero", "long_gaps"]))
     if tm:
         sc["times"] = tm
     return sc
